@@ -31,10 +31,22 @@ def interp_exact(fx, fy, z: F):
 
 @st.composite
 def _pl_cases(draw):
-    mode = draw(st.sampled_from(["grid", "grid", "float", "narrow-int"]))
+    mode = draw(st.sampled_from(["grid", "grid", "float", "narrow-int", "int-y"]))
     n = draw(st.integers(1, 9))
     x_dtype = None
-    if mode == "narrow-int":
+    y_dtype = None
+    if mode == "int-y":
+        # sample values held in an integer or boolean type (counts, flags), up to the ends of its range
+        y_dtype = draw(st.sampled_from(["uint8", "uint8", "uint16", "uint64", "int8", "int16", "bool"]))
+        lo_, hi_ = {"uint8": (0, 255), "uint16": (0, 65535), "uint64": (0, 2**52), "int8": (-128, 127),
+                    "int16": (-32768, 32767), "bool": (0, 1)}[y_dtype]
+        pick = st.one_of(st.sampled_from([lo_, hi_, lo_ + 1 if hi_ > 1 else lo_, hi_ - 1]), st.integers(lo_, min(hi_, lo_ + 6)),
+                         st.integers(lo_, hi_))
+        xs = sorted(k / 4 for k in draw(st.lists(st.integers(0, 12), min_size=n, max_size=n)))
+        ys = [float(v) for v in draw(st.lists(pick, min_size=n, max_size=n))]
+    if mode == "int-y":
+        pass
+    elif mode == "narrow-int":
         # sample points held in a narrow signed integer type, spread over its whole range (gaps wider
         # than the type's maximum)
         x_dtype = draw(st.sampled_from(["int8", "int16", "int64"]))
@@ -58,7 +70,12 @@ def _pl_cases(draw):
                      st.sampled_from([-5.0, 5.0, 0.1, 2e3, -2e3]),
                      st.floats(min_value=min(ys) - 1, max_value=max(ys) + 1, allow_nan=False))
     ts = draw(st.lists(cand, min_size=T, max_size=T))
-    return dict(x=xs, y=ys, t=ts, scalar=scalar, mode=mode, x_dtype=x_dtype)
+    t_same = False
+    if y_dtype and draw(st.booleans()):
+        # targets that are sample values, written in the samples' own type
+        ts = draw(st.lists(st.sampled_from(ys), min_size=T, max_size=T))
+        t_same = True
+    return dict(x=xs, y=ys, t=ts, scalar=scalar, mode=mode, x_dtype=x_dtype, y_dtype=y_dtype, t_same=t_same)
 
 
 def check_solutions(xs, ys, ts, res, ctx):
@@ -135,7 +152,7 @@ def check_solutions(xs, ys, ts, res, ctx):
 
 def mode_exact(xs, ys, t):
     """Grid inputs: all arithmetic is exact, so solutions must be strictly increasing."""
-    return all(float(v * 4).is_integer() for v in xs) and all(float(v * 4).is_integer() for v in ys) \
+    return all(float(v * 4).is_integer() for v in xs) and all(float(v * 4).is_integer() and abs(v) <= 2**20 for v in ys) \
         and float(t * 4).is_integer()
 
 
@@ -143,9 +160,11 @@ def check_pl(case):
     from score_analysis.utils import invert_pl_function
 
     xs, ys, ts = case["x"], case["y"], case["t"]
-    x_a, y_a = np.asarray(xs, dtype=case.get("x_dtype") or float), np.asarray(ys, dtype=float)
+    x_a, y_a = np.asarray(xs, dtype=case.get("x_dtype") or float), np.asarray(ys, dtype=case.get("y_dtype") or float)
     x0, y0 = x_a.copy(), y_a.copy()
     t_in = float(ts[0]) if case["scalar"] else np.asarray(ts, dtype=float)
+    if case.get("t_same"):
+        t_in = y_a.dtype.type(ts[0]) if case["scalar"] else np.asarray(ts, dtype=y_a.dtype)
     res = invert_pl_function(x_a, y_a, t_in)
     ctx = f"x={xs} y={ys}"
     if case["scalar"]:
